@@ -220,6 +220,8 @@ def check_step(ws, op):
         except Exception as exc:  # noqa: BLE001
             return ws, {'what': f'{name} raised {type(exc).__name__} on an admissible input',
                         'observed': str(exc)[:160], 'expected': 'a result', 'exception': R.exc_name(exc)}
+    if kind == 'rejected':
+        return ws, None
     try:
         if kind == 'query':
             _check_query(name, args, ws_v[args['at']], val)
@@ -401,9 +403,41 @@ def _check_query(name, args, src, val):
                     raise Bad(f'tensor: slice of group {u!r}, channel {j}', val['tensor'][a][j], want)
 
 
+def init_must_be_rejected(init):
+    """the constructor has to refuse descriptor columns that are not as long as their axis
+    (and a TemporalDataset whose time descriptors lack 'time'): plain reading of the case"""
+    m = init['meas']
+    size = {'obs': len(m), 'chan': len(m[0]) if m else 0, 'time': len(m[0][0]) if m and m[0] else 0}
+    for ax in ('obs', 'chan', 'time'):
+        if init[ax] is None or (ax == 'time' and not init['temporal']):
+            continue
+        for k, vals in init[ax]:
+            n = 1 if isinstance(vals, str) else len(vals)
+            if n != size[ax]:
+                return f'{ax} descriptor {k!r} has {n} entries for {size[ax]} positions'
+    if init['temporal'] and init['time'] is not None and 'time' not in [k for k, _ in init['time']]:
+        return "time descriptors without 'time'"
+    return None
+
+
 def run(case):
     """None if the property holds along the whole session on the real code, else a finding"""
-    ws = [R.build(case['init'])]
+    d0, exc = R.try_build(case['init'])
+    why = init_must_be_rejected(case['init'])
+    if why and d0 is not None:
+        return {'what': 'constructor accepted a misaligned dataset: ' + why, 'step': -1, 'op': 'init'}
+    if not why and d0 is None:
+        return {'what': f'constructor rejected a well-formed dataset ({exc})', 'step': -1, 'op': 'init',
+                'exception': exc}
+    if d0 is None:
+        return None
+    if case['init']['temporal'] and case['init']['time'] is None:
+        nt = len(case['init']['meas'][0][0])
+        got = R.canon(d0)['time']
+        if got != {'time': list(range(nt))}:
+            return {'what': "time_descriptors=None must give 'time' = (0, 1, ..., n_time-1)", 'observed': got,
+                    'expected': {'time': list(range(nt))}, 'step': -1, 'op': 'init'}
+    ws = [d0]
     for n, op in enumerate(case['ops']):
         ws, problem = check_step(ws, op)
         if problem:
